@@ -554,11 +554,71 @@ def check_constant_priority(res, which):
         res.violation("C04|get_odesys|substitutions-vs-constants|%s|raises" % which, "%s raised %s: %s" % (which, type(e).__name__, e), case, "EXC %s" % type(e).__name__, None)
 
 
+def check_partial_names(res, kind, nnamed):
+    """rate expressions with several arguments of which only the leading `nnamed` carry names (unique_keys is aligned with
+    the beginning of args): kept as free parameters, exactly the named ones become parameters (defaults: the written values)
+    and the right-hand side evaluated at those defaults equals the inlined build and the hand rate"""
+    import math
+    import numpy as np
+    from chempy import Reaction, ReactionSystem
+    from chempy.kinetics.ode import get_odesys
+    from chempy.kinetics.rates import MassAction, Arrhenius, Eyring
+
+    T = 305.0
+    conc = {"A": 3.0, "B": 5.0, "C": 7.0}
+    if kind == "Arrhenius":
+        args, names_all = [1e10, 4810.0], ("A_1", "EaR_1")
+        k1 = args[0] * math.exp(-args[1] / T)
+        expr = Arrhenius(list(args), unique_keys=names_all[:nnamed] if nnamed else None)
+    else:  # Eyring with its defaulted third argument (conc0) left unnamed, or named explicitly
+        args, names_all = [2e10, 5200.0, 1.0], ("kBh_1", "dHR_1", "c0_1")
+        k1 = T * args[0] * math.exp(-args[1] / T) / args[2]
+        expr = Eyring(list(args[:2]) if nnamed < 3 else list(args), unique_keys=names_all[:nnamed] if nnamed else None)
+    case = dict(layer="H", what="partial-names", kind=kind, nnamed=nnamed)
+    res.states += 1
+    res.transitions += 2
+    res.nontrivial += 1
+    res.evaluations += 1
+    try:
+        rsys = ReactionSystem([Reaction({"A": 1}, {"B": 1}, MassAction(expr)), Reaction({"B": 2}, {"C": 1}, 7.0)], "A B C")
+        ref = {"A": -k1 * conc["A"], "B": k1 * conc["A"] - 2 * 7.0 * conc["B"] ** 2, "C": 7.0 * conc["B"] ** 2}
+        out = {}
+        for ip in (True, False):
+            odesys, extra = get_odesys(rsys, include_params=ip)
+            pn = list(odesys.param_names)
+            uniq = dict(extra["unique"])
+            vals = dict(temperature=T, **{k: v for k, v in uniq.items()})
+            f = np.asarray(odesys.f_cb(0.0, [conc[k] for k in odesys.names], [vals[k] for k in pn]), dtype=float).ravel()
+            out[ip] = (pn, uniq, {k: float(v) for k, v in zip(odesys.names, f)})
+        exp_free = ["temperature"] + list(names_all[:nnamed])
+        bad = None
+        if sorted(out[True][0]) != ["temperature"]:
+            bad = "inlined build has parameters %r" % (out[True][0],)
+        elif sorted(out[False][0]) != sorted(exp_free):
+            bad = "free-parameter build has parameters %r, the named constants are %r" % (out[False][0], exp_free)
+        elif {k: float(v) for k, v in out[False][1].items()} != {k: float(v) for k, v in zip(names_all[:nnamed], args)}:
+            bad = "defaults of the named constants %r, written %r" % (out[False][1], dict(zip(names_all[:nnamed], args)))
+        else:
+            for ip in (True, False):
+                if not all(abs(out[ip][2][k] - ref[k]) <= 1e-10 * abs(ref[k]) for k in ref):
+                    bad = "include_params=%r: f = %r, by hand %r" % (ip, out[ip][2], ref)
+        res.outcomes["partial-names-ok" if bad is None else "partial-names-WRONG"] += 1
+        if bad:
+            res.violation("C04|get_odesys|partially-named-arguments|%s" % kind, "%s with the first %d argument(s) named: %s" % (kind, nnamed, bad), case, bad, None)
+    except Exception as e:
+        res.outcomes["partial-names-raises:%s" % type(e).__name__] += 1
+        res.violation("C04|get_odesys|partially-named-arguments|%s|raises" % kind, "%s with the first %d argument(s) named raised %s: %s" % (kind, nnamed, type(e).__name__, e), case, "EXC %s" % type(e).__name__, None)
+
+
 def run_chunk(chunk, tier):
     res = Result()
     t = _tier(tier)
     if chunk[0] == "H":
         i = chunk[1]
+        if i == 1:
+            for kind, nargs in (("Arrhenius", 2), ("Eyring", 3)):
+                for nnamed in range(nargs + 1):
+                    check_partial_names(res, kind, nnamed)
         if i == 0:
             for which in ("constants-only", "substitution-only", "substitution+constants"):
                 check_constant_priority(res, which)
@@ -601,6 +661,8 @@ def replay(case):
             check_symbols(res, tuple(case["idxs"]), tuple(case["perm"]))
         elif case.get("what") == "constants":
             check_constant_priority(res, case["which"])
+        elif case.get("what") == "partial-names":
+            check_partial_names(res, case["kind"], case["nnamed"])
         else:
             check_rebuild(res, case["builder"], case["style"], tuple(case["idxs"]))
         if res.violations:
